@@ -327,6 +327,10 @@ func (r *Decoder) scanOpenLangtag(uncommitted cursorio.DecodedRuneList) (string,
 
 			goto SECONDARY
 		default:
+			if len(uncommitted) == 1 {
+				return "", nil, grammar.R_LANGTAG.Err(r.newOffsetError(cursorioutil.UnexpectedRuneError{Rune: r0.Rune}, uncommitted.AsDecodedRunes(), r0.AsDecodedRunes()))
+			}
+
 			r.buf.BacktrackRunes(r0)
 
 			goto END
